@@ -108,6 +108,28 @@ func TestBounded(t *testing.T) {
 		}
 	}
 	rec("")
+	// sources composed of the words the transform itself writes (suffix, default host and
+	// organisation, in several letter cases) and of syntax characters: values that look like
+	// the output of the transform, up to 5 words (quick) / 6 (thorough)
+	vocab := []string{"docker", "x", "-buildkite-plugin", "buildkite-plugin", "-BUILDKITE-PLUGIN", "-buildkite-plugins",
+		"buildkite-plugins", "github.com", "GitHub.com", "/", "#", "-", ".", "v1", ".git"}
+	maxWords := 5
+	if os.Getenv("VERIF_TIER") == "thorough" {
+		maxWords = 6
+	}
+	var comp func(prefix string, n int)
+	comp = func(prefix string, n int) {
+		if n > 0 {
+			check(prefix)
+		}
+		if n == maxWords {
+			return
+		}
+		for _, w := range vocab {
+			comp(prefix+w, n+1)
+		}
+	}
+	comp("", 0)
 	// documented host / scheme / scp / Windows forms are left as written
 	for _, s := range []string{
 		"https://github.com/buildkite-plugins/docker-buildkite-plugin#v1", "ssh://git@github.com/org/repo.git#main",
